@@ -2,7 +2,7 @@ SPECIFICATION Spec
 CONSTANTS
   MaxDev = 2
   OptionSets = {"none", "search_parent", "no_ec", "override", "config_path"}
-  TargetSets = {"f3", "f4", "f5", "f3f4", "f4f3", "f5f4", "f4f4", "dir", "stdin", "stdinpath"}
+  TargetSets = {"f3", "f4", "f5", "f3f4", "f4f3", "f5f4", "f4f4", "f4af4", "dir", "stdin", "stdinpath"}
 INVARIANT Emit
 INVARIANT DesignRefines
 CHECK_DEADLOCK FALSE
